@@ -105,11 +105,11 @@ func ctxEPs() []ctxEP {
 		{"Tokenizer.TokenizeContext",
 			func(ctx context.Context, tk *tokenizer.Tokenizer, p *parser.Parser, sql string) (string, bool, error) {
 				toks, err := tk.TokenizeContext(ctx, []byte(sql))
-				return tokDigest(toks), toks != nil, err
+				return tokDigest(toks) + dump.Dump(tk.Comments), toks != nil, err
 			},
 			func(tk *tokenizer.Tokenizer, p *parser.Parser, sql string) (string, bool, error) {
 				toks, err := tk.Tokenize([]byte(sql))
-				return tokDigest(toks), toks != nil, err
+				return tokDigest(toks) + dump.Dump(tk.Comments), toks != nil, err
 			}},
 		{"Parser.ParseContextFromModelTokens",
 			func(ctx context.Context, tk *tokenizer.Tokenizer, p *parser.Parser, sql string) (string, bool, error) {
@@ -263,6 +263,11 @@ func c11Inputs(r *rand.Rand, g *gen.G, i int) string {
 		"SELECT a " + strings.Repeat("/* c */ ", 1500) + "FROM t",
 		"SELECT a, b, c, d, e, f, g FROM t " + strings.Repeat("-- c\n", 1500) + "WHERE a = 1",
 		strings.Repeat("/* lead */\n", 1500) + "SELECT 1",
+		// blank lines, a leading line break, comments on their own lines and non-ASCII names: the context-aware
+		// tokenizer reads positions, comments and words exactly as the plain one does
+		"\nSELECT a,\n\n  caf\u00e9, \u540d\u524d -- inline\n\n-- own line\nFROM t\n\n\n/* block */ WHERE b = 'x\n\ny'\n",
+		"SELECT a\r\n\r\nFROM t\r\n-- c\r\n\r\nWHERE \u00fcber = 1 AND na\u00efve = 2",
+		"SELECT a\n\nFROM t WHERE b = 'never closed",
 	}
 	// scripts whose statement terminators fall on every residue of the parser's polling interval: a poll that lands on
 	// the advance over a ';' must not end the call early with the statements collected so far
@@ -386,7 +391,7 @@ func c11Polls(a *ChildArgs, sql string, i int) {
 		P := cc.Polls
 		d0, _, err0 := ep.Plain(mustTokenizer(), parser.NewParser(), sql)
 		a.Rec.Count("evaluations", 1)
-		if d1 != d0 || (err1 == nil) != (err0 == nil) {
+		if d1 != d0 || (err1 == nil) != (err0 == nil) || (err1 != nil && shapeOf(err1) != shapeOf(err0)) {
 			a.Rec.Viol("C11/"+ep.Name+"/never-fires-differs", "a context that never fires yields exactly the result of the context-free call",
 				fmt.Sprintf("with context: err=%v; without: err=%v; results equal=%v", err1, err0, d1 == d0), map[string]interface{}{"sql": sql})
 		}
